@@ -224,6 +224,10 @@ def space(tier):
         units.append(({"program": p, "cfg": cfg}, {"deliver": 2, "early": 1, "total": 2}, cap))
         cfg2 = {"env_kinds": ["deliver", "crash"], "deliver_outcomes": ["ok", "fail", "timeout"] if not quick else ["ok", "fail"]}
         units.append(({"program": p, "cfg": cfg2}, {"deliver": 1, "crash": 1, "total": 2}, cap))
+        # paginated checkpoint responses (the backend-issued callback id / STARTED invoke arrives on a later page)
+        cfg3 = {"env_kinds": ["deliver"], "deliver_outcomes": ["ok", "fail"], "page_modes": [4]}
+        for pol in ("rtb", "low", "high"):
+            units.append(({"program": p, "cfg": dict(cfg3, policy=pol)}, {"deliver": 1, "total": 1}, cap))
         if p["meta"]["place"] == "branch":
             for pol in ("low", "high"):
                 units.append(({"program": p, "cfg": dict(cfg, policy=pol)}, {"deliver": 1, "early": 1, "total": 1}, cap))
@@ -236,4 +240,5 @@ simcheck.install(globals(), "C14", [judge], space,
                  "tenant) at top level, in a child context and in a parallel branch next to a running or waiting sibling; "
                  "backend outcomes {success with payload / empty / none, failed with/without message, timed out, cancelled, "
                  "stopped}; delivered during the creating invocation (at the START call or a later call), while PENDING, "
-                 "or after a spurious/unrelated wake-up; combined with every single crash point")
+                 "or after a spurious/unrelated wake-up; combined with every single crash point; paginated checkpoint responses under "
+                 "three scheduler policies")
